@@ -3,6 +3,7 @@ package main
 import (
 	"fmt"
 	"os"
+	"path/filepath"
 	"strings"
 	"sync"
 	"sync/atomic"
@@ -16,6 +17,7 @@ type CopyCase struct {
 	Hist [][]string `json:"hist"`
 	Outs []string   `json:"outs"`
 	File int        `json:"file"`
+	CRLF bool       `json:"crlf"`
 }
 
 func checkCopyright(c *Ctx) error {
@@ -78,18 +80,29 @@ func checkCopyright(c *Ctx) error {
 	c.Cov["traces_validated_against_impl"] = len(cases)
 	c.Cov["cli_executions"] = cli
 	c.Cov["exhaustive"] = keepMod == 1
-	c.Cov["rule"] = fmt.Sprintf("every history of %d invocations over 7 version spellings (plain, lower/upper-case pre-release, v prefix, two components, build metadata, git-describe) x 2 years on 5 files with each marker kind 0..2 times; after EVERY invocation all .conf/.example files must equal the spec byte for byte, decoy files stay untouched, repeating the last invocation changes nothing; non-trivial = at least two different versions in the history on a file with markers", runs)
+	c.Cov["rule"] = fmt.Sprintf("every history of %d invocations over 7 version spellings (plain, lower/upper-case pre-release, v prefix, two components, build metadata, git-describe) x 2 years on 5 files with each marker kind 0..2 times, each with LF and with CR LF line ends (compared modulo line ends), in plain, nested and dot-named directories and under a dot-named root; after EVERY invocation all .conf/.example files must equal the spec byte for byte, decoy files stay untouched, repeating the last invocation changes nothing; non-trivial = at least two different versions in the history on a file with markers", runs)
 	c.Summary = fmt.Sprintf("theorem_states=%d histories=%d cli=%d", th.Distinct, len(cases), cli)
 	return nil
 }
 
 func copyReplay(c *Ctx, name string, cc *CopyCase, cli *int64) {
-	root, err := c.newSandbox(name)
+	sb, err := c.newSandbox(name)
 	if err != nil {
 		return
 	}
-	defer os.RemoveAll(root)
-	targets := []string{"rules/REQUEST-901-INITIALIZATION.conf", "crs-setup.conf.example", "plugins/sub/dir/extra.conf"}
+	defer os.RemoveAll(sb)
+	// every other case lives in a root whose own name starts with a dot
+	root := sb
+	if caseHash([]string{cc.Orig, jsonStr(cc.Hist)}, c.Seed)%2 == 0 {
+		root = filepath.Join(sb, ".coreruleset")
+	}
+	targets := []string{"rules/REQUEST-901-INITIALIZATION.conf", "crs-setup.conf.example", "plugins/sub/dir/extra.conf", "plugins/.disabled/x.conf"}
+	norm := func(s string) string {
+		if cc.CRLF {
+			return strings.ReplaceAll(s, "\r\n", "\n") // the statement does not say whether CR LF survives
+		}
+		return s
+	}
 	t := Tree{"regex-assembly/": "",
 		"rules/notes.conf.bak":  cc.Orig,
 		"rules/unicode.data":    cc.Orig,
@@ -120,7 +133,7 @@ func copyReplay(c *Ctx, name string, cc *CopyCase, cli *int64) {
 		}
 		now, _ := snapshot(root)
 		for _, p := range targets {
-			if now[p] != cc.Outs[i] {
+			if norm(now[p]) != cc.Outs[i] {
 				bad(i, fmt.Sprintf("after invocation %d (-v %s -y %s) %s differs from the spec", i+1, h[0], h[1], p), map[string]any{"real": now[p], "spec": cc.Outs[i]})
 				return
 			}
